@@ -23,6 +23,8 @@ site: http://bugseng.com/products/ppl/ . */
 
 #include "ppl-config.h"
 #include "Pointset_Powerset_defs.hh"
+#include <sstream>
+#include <stdexcept>
 #include "Grid_defs.hh"
 #include <utility>
 
@@ -33,6 +35,13 @@ void
 PPL::Pointset_Powerset<PPL::NNC_Polyhedron>
 ::difference_assign(const Pointset_Powerset& y) {
   Pointset_Powerset& x = *this;
+  if (x.space_dimension() != y.space_dimension()) {
+    std::ostringstream s;
+    s << "PPL::Pointset_Powerset<NNC_Polyhedron>::difference_assign(y):\n"
+      << "this->space_dimension() == " << x.space_dimension() << ", "
+      << "y.space_dimension() == " << y.space_dimension() << ".";
+    throw std::invalid_argument(s.str());
+  }
   using std::swap;
   // Ensure omega-reduction.
   x.omega_reduce();
@@ -61,6 +70,13 @@ bool
 PPL::Pointset_Powerset<PPL::NNC_Polyhedron>
 ::geometrically_covers(const Pointset_Powerset& y) const {
   const Pointset_Powerset& x = *this;
+  if (x.space_dimension() != y.space_dimension()) {
+    std::ostringstream s;
+    s << "PPL::Pointset_Powerset<NNC_Polyhedron>::geometrically_covers(y):\n"
+      << "this->space_dimension() == " << x.space_dimension() << ", "
+      << "y.space_dimension() == " << y.space_dimension() << ".";
+    throw std::invalid_argument(s.str());
+  }
   for (const_iterator yi = y.begin(), y_end = y.end();
        yi != y_end; ++yi) {
     if (!check_containment(yi->pointset(), x)) {
@@ -294,6 +310,13 @@ void
 PPL::Pointset_Powerset<PPL::Grid>
 ::difference_assign(const Pointset_Powerset& y) {
   Pointset_Powerset& x = *this;
+  if (x.space_dimension() != y.space_dimension()) {
+    std::ostringstream s;
+    s << "PPL::Pointset_Powerset<Grid>::difference_assign(y):\n"
+      << "this->space_dimension() == " << x.space_dimension() << ", "
+      << "y.space_dimension() == " << y.space_dimension() << ".";
+    throw std::invalid_argument(s.str());
+  }
   using std::swap;
   // Ensure omega-reduction.
   x.omega_reduce();
@@ -323,6 +346,13 @@ bool
 PPL::Pointset_Powerset<PPL::Grid>
 ::geometrically_covers(const Pointset_Powerset& y) const {
   const Pointset_Powerset& x = *this;
+  if (x.space_dimension() != y.space_dimension()) {
+    std::ostringstream s;
+    s << "PPL::Pointset_Powerset<Grid>::geometrically_covers(y):\n"
+      << "this->space_dimension() == " << x.space_dimension() << ", "
+      << "y.space_dimension() == " << y.space_dimension() << ".";
+    throw std::invalid_argument(s.str());
+  }
   for (const_iterator yi = y.begin(), y_end = y.end();
        yi != y_end; ++yi) {
     if (!check_containment(yi->pointset(), x)) {
